@@ -36,6 +36,8 @@ def dispatch (line : String) : String :=
     | "installed" => cmdInstalled m
     | "clientaddr" => cmdClientAddr m
     | "cookie" => cmdCookie m
+    | "usertoken" => cmdUserToken m
+    | "tokeninfo" => cmdTokenInfo m
     | _ => "bad-op"
 
 partial def loop (h : IO.FS.Stream) (out : IO.FS.Stream) : IO Unit := do
